@@ -296,3 +296,22 @@ func (r *Region) First(pred func(ssa.CallInstruction) bool) ssa.CallInstruction 
 	}
 	return cs[0]
 }
+
+// PassesBetween: every path from `from` to `to` executes `via` (false if `to` is unreachable from `from`).
+func (g *SG) PassesBetween(from, to, via ssa.Instruction) bool {
+	f, t, v := g.segOf(from), g.segOf(to), g.segOf(via)
+	if f == nil || t == nil || v == nil || !g.ReachesFrom(from, to) {
+		return false
+	}
+	if v == f {
+		return instrIndex(via) > instrIndex(from) && (t != f || instrIndex(via) < instrIndex(to))
+	}
+	if v == t {
+		return instrIndex(via) < instrIndex(to)
+	}
+	del := map[segEdge]bool{}
+	for _, p := range v.preds {
+		del[segEdge{p.id, v.id}] = true
+	}
+	return !g.reachableFrom(f, del)[t]
+}
